@@ -143,6 +143,27 @@ def kernel_index(S, kind, B, diag):
                 S.prove_eq(dg[b], as_sym_arr(SH.get(rep(x1[b], x1[b], diag=True))), "diag element %d = replica diag" % b)
 
 
+def mean_grad(S, cls, pbs, dbs):
+    """derivative-enabled mean modules in batch mode: element b = replica (value and derivative blocks)"""
+    pbs, dbs = tuple(pbs), tuple(dbs)
+    Mn = gpytorch.means
+    mk = {"linear_grad": lambda b: Mn.LinearMeanGrad(2, batch_shape=torch.Size(b)), "linear_gradgrad": lambda b: Mn.LinearMeanGradGrad(2, batch_shape=torch.Size(b)),
+          "constant_grad": lambda b: Mn.ConstantMeanGrad(batch_shape=torch.Size(b))}[cls]
+    m = mk(pbs)
+    declare_params(S, m, "p_", scale=0.5)
+    x = S.randn(*dbs, 3, 2, scale=0.7); S.sym_tensor(x, "x")
+    out_bs = np.broadcast_shapes(pbs, dbs)
+    with S.mode():
+        out = S.must_not_raise("%s mean with batch %s on inputs of batch %s" % (cls, pbs, dbs), lambda: m(x))
+        for b in np.ndindex(*out_bs):
+            rep = mk(())
+            with torch.no_grad():
+                src = dict(m.named_parameters())
+                for nme, p in rep.named_parameters():
+                    p.copy_(src[nme][_bidx(b, pbs, len(out_bs))])
+            S.prove_eq(out[b], as_sym_arr(SH.get(rep(x[_bidx(b, dbs, len(out_bs))]))), "%s mean element %s = replica" % (cls, list(b)))
+
+
 def hamming_batch(S, pbs, dbs):
     """HammingIMQ kernel (one-hot sequences, concrete) with batched alpha / beta (symbolic): element b = replica"""
     pbs, dbs = tuple(pbs), tuple(dbs)
@@ -375,6 +396,9 @@ def scenarios(tier, seed):
         add("kernel", kind="multitask", pbs=[2], dbs1=[], dbs2=[])
         add("hamming_batch", pbs=[2], dbs=[2])
         add("hamming_batch", pbs=[3], dbs=[])
+        add("mean_grad", cls="linear_grad", pbs=[2], dbs=[])
+        add("mean_grad", cls="linear_gradgrad", pbs=[2], dbs=[2, 1])
+        add("mean_grad", cls="constant_grad", pbs=[2], dbs=[3, 2])
         for (p, d) in [((2,), ()), ((), (2,)), ((2, 1), (1, 2)), ((2,), (2,))]:
             add("mean_noise", pbs=list(p), dbs=list(d))
         add("exact_gp", n=2, m=1, shared_x=True)
@@ -399,6 +423,9 @@ def scenarios(tier, seed):
                 add("kernel", kind=kind, pbs=list(p), dbs1=list(d), dbs2=list(d))
         for (p, d) in [((2,), (2,)), ((3,), ()), ((), (2,)), ((2,), (3, 2))]:
             add("hamming_batch", pbs=list(p), dbs=list(d))
+        for cls in ("linear_grad", "linear_gradgrad", "constant_grad"):
+            for (p, d) in [((2,), (2,)), ((2,), ()), ((), (2,)), ((2,), (3, 2)), ((2,), (2, 1))]:
+                add("mean_grad", cls=cls, pbs=list(p), dbs=list(d))
         for kind in ("rbf+linear", "rbf*linear", "scale(rbf+rq)"):
             for (p, d) in pairs[:8]:
                 add("kernel", kind=kind, pbs=list(p), dbs1=list(d), dbs2=list(d))
